@@ -573,6 +573,10 @@ class JSONPathEnvironment:
         return False
 
     def _contains(self, container: object, item: object) -> bool:
+        if isinstance(item, NodeList):
+            # Nothing, or several nodes, is not a value. Note that an empty
+            # node list would otherwise compare equal to an empty array.
+            return False
         try:
             return item in container  # type: ignore
         except TypeError:
